@@ -238,7 +238,15 @@ def run(prog, check):
         raise AnalysisError('CalcError not found in the template / the generator')
 
     def body_dump(fn):
-        body = [st for st in fn.body if not (isinstance(st, ast.Expr) and isinstance(st.value, ast.Constant))]
+        """structure of the body with local names canonicalised by order of first appearance (alpha-equivalence)"""
+        import copy as _copy
+        body = [_copy.deepcopy(st) for st in fn.body if not (isinstance(st, ast.Expr) and isinstance(st.value, ast.Constant))]
+        names = {}
+        for st in body:
+            for x in ast.walk(st):
+                if isinstance(x, ast.Name) and x.id not in ('abs', 'zip', 'sum', 'len', 'range', 'float', 'max', 'min'):
+                    names.setdefault(x.id, 'v%d' % len(names))
+                    x.id = names[x.id]
         return [ast.dump(st) for st in body]
     same = body_dump(tcalc[0]) == body_dump(own.node)
     # each pair contributes abs(a - b)
